@@ -1,20 +1,23 @@
 (* Run/JudgeC02.v — case type and judge for the C02 correspondence run (multi-knee detection). *)
 From Coq Require Import ZArith List Arith Bool PrimFloat.
-From Knee Require Import Num NumFloat NpList Model.MultiKnee.
+From Knee Require Import Num NumFloat NpList Model.Metrics Model.LinearFit Model.MultiKnee Model.MultiKneeStraight.
 Import ListNotations.
 
 (* One case = one call <detector>.multi_knee(points, t1, t2) (or multi_knee.multi_knee(<detector>.knee, points, t1, t2, cost))
    on a curve of n points.
    costc  0 smape (every bundled wrapper), 1 r2, 2 rmspe
    lo     lower bound of the detector's relative answer (0 Menger, 1 otherwise);  tmin the detector's minimum t2
-   stab   straight l r : the library's lf.smape_points / lf.linear_r2_points of the end-point fit of points[l:r]
+   pts    the curve; the straightness of points[l:r] is DERIVED from it in the model (Model/MultiKneeStraight.v:
+          end-point line + SMAPE / R2 of the formula layer, bit-reproducible) — it is not an oracle
+   stab   OBSERVED: what the library's lf.smape_points / lf.linear_r2_points returns for the end-point fit
+          lf.linear_fit_points of points[l:r], on the ranges the run visits; compared bit-for-bit with the derived value
    ktab   knee1 l r    : <detector>.knee(points[l:r]) (None = the detector returned None)
    pure   every value the implementation's own calls returned during the run equals the table's value for that slice
    out    the returned knee array (None = exception / time-out / not an index array)
    pops   number of iterations of the while loop (None = could not be observed)
    outL, outR  the real sub-calls on points[:k+1] and points[k+1:], k = ktab(0, n) (None = not made / exception) *)
 Inductive case :=
-  | CMk (costc lo n : nat) (t1 : float) (t2 tmin : nat)
+  | CMk (costc lo : nat) (t1 : float) (t2 tmin : nat) (pts : list (float * float))
         (stab : list (nat * nat * float)) (ktab : list (nat * nat * option nat))
         (pure : bool) (out : option (list nat)) (pops : option nat) (outL outR : option (list nat)).
 
@@ -33,20 +36,23 @@ Definition opt_list_eqb (a b : option (list nat)) : bool :=
   end.
 
 Section Run.
-  Variables (costc lo n : nat) (t1 : float) (t2 : nat).
+  Variables (costc lo : nat) (t1 : float) (t2 : nat).
+  Variable pts : list (float * float).
   Variable stab : list (nat * nat * float).
   Variable ktab : list (nat * nat * option nat).
 
-  Definition Sor (l r : nat) : float := match look stab l r with Some v => v | None => nan end.
-  Definition Kor (l r : nat) : option nat := match look ktab l r with Some v => v | None => None end.
+  Definition n := length pts.
   Definition cst := cost_of costc.
+  (* the default eps = 1e-16 of lf.smape_points *)
+  Definition eps16 : float := 0x1.cd2b297d889bcp-54%float.
+  Definition Sor (l r : nat) : float := mk_straight (N := FloatNum) eps16 pts cst l r.
+  Definition Kor (l r : nat) : option nat := match look ktab l r with Some v => v | None => None end.
 
-  (* does a popped range need an oracle value that the tables do not hold? *)
+  (* does a popped range need a detector answer that the table does not hold? *)
   Definition covered (a : nat) (p : nat * nat) : bool :=
     let l := fst p + a in let r := snd p + a in
     if t2 <? r - l then
-      (if r - l <=? 2 then true else match look stab l r with Some _ => true | None => false end)
-      && (if mk_curved (N := FloatNum) cst Sor t1 l r then match look ktab l r with Some _ => true | None => false end else true)
+      (if mk_curved (N := FloatNum) cst Sor t1 l r then match look ktab l r with Some _ => true | None => false end else true)
     else true.
   Definition run_covered (a : nat) (o : option (list nat * list (nat * nat))) : bool :=
     match o with Some (_, tr) => forallb (covered a) tr | None => true end.
@@ -63,22 +69,28 @@ Section Run.
                       | Some k => if (t2 <? r - l) && (r <=? n) then (lo <=? k) && (k + 2 <=? r - l) else true
                       | None => true
                       end) ktab.
+  (* what the library returns as the straightness of a range = the value derived from the property's definition, bit for bit *)
+  Definition straight_ok : bool :=
+    forallb (fun e => let l := fst (fst e) in let r := snd (fst e) in
+                      if (2 <? r - l) && (r <=? n) then f_same (snd e) (Sor l r) else true) stab.
 End Run.
 
 (* result code = 100 * agree + holds
    agree: 0 model = implementation (knee array, loop iterations, both sub-calls) and the oracle discipline held,
-          1 differs, 4 an oracle key the model needs is missing, 6 outside the property's domain
-   holds: mk_holds (the predicate of theorem C02_holds) on the implementation's outputs; 7 = the detector left its range *)
+          1 differs, 4 a detector answer the model needs is missing, 6 outside the property's domain
+   holds: mk_holds (the predicate of theorem C02_holds) on the implementation's outputs; 7 = the detector left its range;
+          8 = the library's straightness of a visited range is not the end-point-line SMAPE / R2 of that range *)
 Definition judge (c : case) : Z :=
   match c with
-  | CMk costc lo n t1 t2 tmin stab ktab pure out pops outL outR =>
+  | CMk costc lo t1 t2 tmin pts stab ktab pure out pops outL outR =>
+      let n := length pts in
       if (n <? 2) || (t2 <? tmin) || negb (0 <=? t1)%float then 600%Z else
-      let mm := m_main costc n t1 t2 stab ktab in
-      let s0 := m_step0 costc n t1 t2 stab ktab in
-      let mL := m_L costc n t1 t2 stab ktab in
-      let mR := m_R costc n t1 t2 stab ktab in
-      let cov := run_covered costc t1 t2 stab ktab 0 mm && run_covered costc t1 t2 stab ktab 0 mL
-                 && match s0 with Some k => run_covered costc t1 t2 stab ktab (k + 1) mR | None => true end in
+      let mm := m_main costc t1 t2 pts ktab in
+      let s0 := m_step0 costc t1 t2 pts ktab in
+      let mL := m_L costc t1 t2 pts ktab in
+      let mR := m_R costc t1 t2 pts ktab in
+      let cov := run_covered costc t1 t2 pts ktab 0 mm && run_covered costc t1 t2 pts ktab 0 mL
+                 && match s0 with Some k => run_covered costc t1 t2 pts ktab (k + 1) mR | None => true end in
       let same :=
         pure && opt_list_eqb (mk_knees mm) out
         && match pops, mk_obs mm with
@@ -96,14 +108,16 @@ Definition judge (c : case) : Z :=
                  | None => None
                  end in
       let h0 := mk_holds lo n s0 obs outL outR in
-      let h := if Nat.eqb h0 0 then (if range_ok lo n t2 ktab then 0 else 7) else h0 in
+      let h := if Nat.eqb h0 0 then
+                 (if range_ok lo t2 pts ktab then (if straight_ok costc pts stab then 0 else 8) else 7)
+               else h0 in
       (100 * a + Z.of_nat h)%Z
   end.
 
-(* the model's own outputs, for replay files: (knees, pops), first step, sub-call knees *)
+(* the model's own outputs, for replay files: (knees, pops), first step, sub-call knees, derived straightness of the whole curve *)
 Definition show (c : case) :=
   match c with
-  | CMk costc lo n t1 t2 tmin stab ktab pure out pops outL outR =>
-      (mk_obs (m_main costc n t1 t2 stab ktab), m_step0 costc n t1 t2 stab ktab,
-       mk_knees (m_L costc n t1 t2 stab ktab), mk_knees (m_R costc n t1 t2 stab ktab))
+  | CMk costc lo t1 t2 tmin pts stab ktab pure out pops outL outR =>
+      (mk_obs (m_main costc t1 t2 pts ktab), m_step0 costc t1 t2 pts ktab,
+       mk_knees (m_L costc t1 t2 pts ktab), mk_knees (m_R costc t1 t2 pts ktab), Sor costc pts 0 (length pts))
   end.
